@@ -46,7 +46,21 @@ fn check_e1302_vehicle_shift_time(ctx: &ValidationContext) -> Result<(), FormatE
                     ]
                 })
                 .collect::<Vec<_>>();
-            if check_raw_time_windows(&tws, false) { None } else { Some(vehicle.type_id.to_string()) }
+            // NOTE: optional shift times have to be valid dates too
+            let has_invalid_optional_time = vehicle.shifts.iter().any(|shift| {
+                shift
+                    .start
+                    .latest
+                    .iter()
+                    .chain(shift.end.iter().flat_map(|end| end.earliest.iter()))
+                    .any(|time| parse_time_safe(time).is_err())
+            });
+
+            if check_raw_time_windows(&tws, false) && !has_invalid_optional_time {
+                None
+            } else {
+                Some(vehicle.type_id.to_string())
+            }
         })
         .collect::<Vec<_>>();
 
